@@ -319,7 +319,7 @@ def witness_search(tier, seed):
             open(os.path.join(song, nme), "w").write("x")
         open(os.path.join(song, "Sub", "Inner.PNG"), "w").write("x")
         cases = [("BANNER", None, "Song-bn.PNG"), ("BACKGROUND", "", "my BG.jpg"), ("CDTITLE", "missing.png", "CdTitle.png"), ("JACKET", None, "JK_x.png"),
-                 ("CDIMAGE", None, "x-cd.png"), ("MUSIC", "AUDIO.ogg", "audio.OGG"), ("BANNER", "sub/inner.png", None), ("BANNER", "nodir/x.png", "Song-bn.PNG"),
+                 ("CDIMAGE", None, "x-cd.png"), ("MUSIC", "AUDIO.ogg", "audio.OGG"), ("BANNER", "Sub/inner.png", None), ("BANNER", "nodir/x.png", "Song-bn.PNG"),
                  ("BACKGROUND", "notes.TXT", "notes.txt")]
         for prop, value, expect in cases:
             sf = SMSimfile.blank()
@@ -334,7 +334,7 @@ def witness_search(tier, seed):
                 return dict(input=dict(prop=prop, value=value), detail=f"asked twice: {got!r} then {again!r}")
             if got is not None and not os.path.exists(got):
                 return dict(input=dict(prop=prop, value=value), detail=f"answer {got!r} does not exist")
-            if prop == "BANNER" and value == "sub/inner.png":
+            if prop == "BANNER" and value == "Sub/inner.png":
                 if got is None or os.path.basename(got) != "Inner.PNG":
                     return dict(input=dict(prop=prop, value=value), detail=f"named file in a sub-directory not found ignoring case: {got!r}")
             elif expect is not None and (got is None or os.path.basename(got) != expect):
